@@ -1243,6 +1243,26 @@ def run_c10(chk):
                     continue
                 mfail.append((t, e + "   [caller bindings " + b + "]", "differs from Namespaces in XML / XPath 1.0 with a caller default "
                               "namespace (it applies to unprefixed element name tests only)", x + " expected " + y))
+    # the INFORMATION SET's own namespace view (Element::namespace_name, Attribute::namespace_name, in_scope_namespace of
+    # crate info - what neither the DOM nor XPath go through): every element and attribute of every document above
+    ns_texts = list(dict.fromkeys([t for t, _, _ in qs] + SCOPE_DOCS))
+    ni = lib.run_lines(lib.build_harness(), [lib.req("nsinfo", t) for t in ns_texts], timeout=600, per_line_resume=True)
+    nm = lib.run_lines(lib.model_driver(), [lib.req("nsinfo", "r", t) for t in ns_texts], timeout=600)
+    ns_bad = []
+    for t, a, m in zip(ns_texts, ni, nm):
+        chk.count(["nsinfo", t], nontrivial=a.startswith("ok") and "=urn" in a)
+        if a != m and not m.startswith("err:doc"):
+            ia, im = a.split("E(")[1:], m.split("E(")[1:]
+            first = next(((x, y) for x, y in zip(ia, im) if x != y), (a[:200], m[:200]))
+            ns_bad.append((t, "E(" + first[0], "E(" + first[1]))
+    chk.cov["infoset_namespace_view"] = "%d documents, %d differences" % (len(ns_texts), len(ns_bad))
+    for t, x, y in ns_bad[:2]:
+        chk.violation("nsinfo_%s" % lib.enc(t)[:60],
+                      "property C10: the information set reports a namespace name or in-scope namespaces that differ from Namespaces in "
+                      "XML (element / its attributes / its in-scope namespaces, first differing element)\nreported: %s\nexpected: %s\n"
+                      "document (percent-encoded): %s\nreplay: printf 'nsinfo\\t%s\\n' | harness/target/debug/xmlrs-driver\n"
+                      % (x, y, lib.enc(t), lib.enc(t).replace("%", "%%")))
+        mfail.append((t, "nsinfo", "information set namespace view", x + " expected " + y))
     chk.cov["document_features"] = dict(sorted(dfeats.items()))
     chk.cov["disagreements_checked"] = len(tdis)
     chk.cov["rule"] = ("%d generated documents with random declaration layouts (shadowing, re-declaration, default namespace, xmlns=\"\", "
@@ -1251,7 +1271,7 @@ def run_c10(chk):
                        "renaming the document's prefixes, after renaming the expression's prefixes together with the bindings, and with "
                        "the same bindings reached through re-binding a prefix; declarations supplied by ATTLIST defaults included; "
                        "non-trivial = a non-empty, non-zero, non-error result" % (ndocs, len(NS_BATTERY) + len(NAME_BATTERY)))
-    for t, e, why, r in mfail[:4]:
+    for t, e, why, r in [m for m in mfail if m[1] != "nsinfo"][:4]:
         chk.violation("ns_%s" % lib.enc(e)[:60],
                       "property C10: %s\nexpression: %s\ndocument (percent-encoded): %s\nresults: %s\n"
                       "replay: printf 'query\\t%s\\t%s\\t%s\\n' | harness/target/debug/xmlrs-driver\n"
